@@ -448,8 +448,12 @@ def _trace_dim(fn, start_nodes, rep, key, what):
                 continue
             if k == "Binary":
                 if p["op"] in ("<", "<=", ">", ">=", "==", "!="):
-                    sinks += 1
-                    break
+                    # the comparison result: follow it to the `if` it steers
+                    cur = p
+                    continue
+                if p["op"] in ("&&", "||"):
+                    cur = p
+                    continue
                 cur = p
                 continue
             if k == "MethodCall":
@@ -506,7 +510,11 @@ def _trace_dim(fn, start_nodes, rep, key, what):
                 break
             if k in ("If",):
                 if any(x is cur for x in walk(p["cond"])):
-                    sinks += 1
+                    why = _only_hints(p)
+                    if why:
+                        bad.append((p, "used to decide control flow (" + why + ")"))
+                    else:
+                        sinks += 1
                 break
             if k in ("Semi", "Expr", "Block", "BlockExpr"):
                 break
@@ -518,6 +526,22 @@ def _trace_dim(fn, start_nodes, rep, key, what):
                 break
             cur = p
     return bad, sinks
+
+
+def _only_hints(ifnode):
+    """None if both branches of `ifnode` contain nothing but capacity hints and logging; else a reason."""
+    for br in (ifnode["then"], ifnode.get("els")):
+        if br is None:
+            continue
+        for n in walk(br):
+            k = n.get("k")
+            if k in ("Ret", "Break", "Continue") and not n["span"].get("desugar"):
+                return "the branch contains `%s`" % k.lower()
+            if k in ("Assign", "AssignOp"):
+                return "the branch assigns state"
+            if k == "MethodCall" and n["name"] not in _DIM_OK_SINKS and n["name"] not in _DIM_PROP and not in_macro(n, "debug", "warn", "trace", "info", "log", "error") and n["name"] not in ("as_ref", "to_string"):
+                return "the branch calls `%s`" % n["name"]
+    return None
 
 
 def r_dim(ctx, rep):
@@ -1178,10 +1202,31 @@ def r_cont(ctx, rep):
         rep.anchor_missing("R-CONT", "xls::Record::skip")
     else:
         idx = [n for n in walk_k(fn.body, "Index")]
+        # every assignment to self.data inside skip takes the remainder of split_at(min(len, data.len()))
+        split_lids = set()
+        for s_ in walk(fn.body):
+            if s_.get("k") == "Let" and s_.get("init") is not None and any(m["name"] == "split_at" for m in walk_k(s_["init"], "MethodCall")):
+                for nm, lid in pat_bindings(s_["pat"]):
+                    split_lids.add(lid)
+        for a in walk_k(fn.body, "Assign"):
+            if field_chain(a["l"]) == ("self", ["data"]):
+                pl = path_local(a["r"])
+                if not (pl and pl[1] in split_lids):
+                    idx.append(a)
         if not idx:
             rep.holds("R-CONT", key, loc(fn.raw), "skip crosses fragments without consuming a flag byte")
         else:
-            rep.violation("R-CONT", key, loc(idx[0]), "Record::skip indexes into the fragment: rich-text-run and extended blocks carry no per-fragment flag byte, consuming one shifts later strings")
+            rep.violation("R-CONT", key, loc(idx[0]), "Record::skip re-slices the fragment other than by the remainder of split_at(min(len, data.len())): rich-text-run and extended blocks carry no per-fragment flag byte, consuming one shifts every later string")
+    fn = F.fn("xls::Record::continue_record")
+    key = "xls::Record::continue_record|R-CONT|fifo"
+    if fn is None:
+        rep.anchor_missing("R-CONT", "xls::Record::continue_record")
+    else:
+        takes = [c for c in walk_k(fn.body, "MethodCall") if c["name"] in ("remove", "swap_remove", "pop", "pop_front", "pop_back", "drain", "last", "first", "split_off")]
+        if len(takes) == 1 and ((takes[0]["name"] == "remove" and lit_value(takes[0]["args"][0]) == 0) or takes[0]["name"] == "pop_front"):
+            rep.holds("R-CONT", key, loc(takes[0]), "CONTINUE fragments are consumed first-in first-out")
+        else:
+            rep.violation("R-CONT", key, loc(takes[0] if takes else fn.raw), "continue_record must hand out the CONTINUE fragments in file order (remove(0) / pop_front); `%s` changes the order once three or more fragments follow the record" % (takes[0]["name"] if takes else "nothing"))
 
 
 # ----------------------------------------------------------------------------------------------
@@ -1331,6 +1376,7 @@ def r_rangepre(ctx, rep, only=None):
                         e = unwrap(s.get("e") or {})
                         if e.get("k") == "If" and always_leaves(e["then"], set()):
                             cands.append(e["cond"])
+            entering = [a["cond"] for a in anc if a.get("k") == "If" and any(x is c for x in walk(a["then"]))]
             for cond in cands:
                 for b in walk_k(cond, "Binary"):
                     if b["op"] in ("<", "<=", ">", ">="):
@@ -1338,7 +1384,14 @@ def r_rangepre(ctx, rep, only=None):
                         rs = {p["res"]["lid"] for p in walk_k(b["r"], "Path") if "local" in p.get("res", {})}
                         if (ls & s_l and rs & e_l) or (ls & e_l and rs & s_l):
                             guard = b
-            if guard is not None:
+                            start_left = bool(ls & s_l)
+                            is_enter = any(cond is e for e in entering)
+                            # exact guard: enter iff start <= end ; leave iff start > end
+                            want = ("<=" if start_left else ">=") if is_enter else (">" if start_left else "<")
+                            guard_ok = (b["op"] == want)
+            if guard is not None and not guard_ok:
+                rep.violation("R-RANGEPRE", key + "|guard-op", loc(guard), "%s guards Range::range with `%s` where exactly `start <= end` is needed (the empty result must be returned iff the requested start lies beyond the end): with this operator a request whose start row equals the last row is answered with an empty range although that row has cells" % (fn.name, guard["op"]))
+            elif guard is not None:
                 rep.holds("R-RANGEPRE", key, loc(c), "start <= end is established by the test at %s" % loc(guard))
             else:
                 rep.violation("R-RANGEPRE", key, loc(c), "%s calls Range::range(start, end) with corners taken from the header-row option / the file, and nothing establishes start <= end first: Range::new asserts it, so a header row below the last used row (or a table reference smaller than its header/totals rows) panics with 'invalid range bounds'" % fn.name)
